@@ -248,7 +248,7 @@ func c14cliRun(bin, dir string, sc c14cliScenario, prefix []int, outFile string)
 	}
 	cmd := exec.Command(bin, sc.Args...)
 	cmd.Dir = dir
-	cmd.Env = append(os.Environ(), "XV_SCHED_PREFIX="+strings.Join(parts, ","), "XV_SCHED_OUT="+outFile)
+	cmd.Env = append(os.Environ(), "XV_SCHED_PREFIX="+strings.Join(parts, ","), "XV_SCHED_OUT="+outFile, "XV_SCHED_KEYS=1")
 	cmd.Stdin = strings.NewReader(sc.Stdin)
 	var se bytes.Buffer
 	cmd.Stderr = &se
@@ -285,8 +285,31 @@ func c14CLI(c *run.Check) {
 	if !c.Quick() {
 		bound = 3
 	}
+	// State-key pruning (sched.Explorer.Prune) is sound only if everything the
+	// tool's goroutines share goes through the shims: a function other than
+	// main/init that assigns to a package-level variable rules it out.
+	prune := true
+	{
+		repo := "/repo"
+		if r := os.Getenv("XV_REPO"); r != "" {
+			repo = r
+		}
+		_, writes, err := c14GlobalWrites(filepath.Join(repo, "xsel"))
+		var bad []string
+		for _, w := range writes {
+			if strings.HasSuffix(w, " in main") || strings.Contains(w, "address taken") {
+				continue
+			}
+			bad = append(bad, w)
+		}
+		if err != nil || len(bad) > 0 {
+			prune = false
+			c.Set("cli_state_pruning", fmt.Sprintf("off: the tool writes package-level variables outside main/init (%v %v); plain bounded search", bad, err))
+		}
+	}
 	var mu sync.Mutex
 	total := 0
+	pruneBroken := false
 	run.ParallelW(len(c14cliScenarios), func(w, i int) {
 		sc := c14cliScenarios[i]
 		dir := c14cliPrepare(base, sc, i)
@@ -342,6 +365,7 @@ func c14CLI(c *run.Check) {
 		}
 		outcomes := map[string]int{}
 		maxPoints := 0
+		pr := prune
 		ex := &sched.Explorer{Stop: c.TimeUp}
 		if c.Quick() {
 			ex.MaxExec = 4000
@@ -367,9 +391,50 @@ func c14CLI(c *run.Check) {
 		for b := 0; b <= bound && ex.Violation == "" && !ex.Capped; b++ {
 			ex.Bound = b
 			ex.Executions = 0
-			ex.Explore()
+			ex.Pruned = 0
+			// bounds 0 and 1 are explored without pruning; from bound 1 on also with
+			// it, and at bound 1 the two explorations must see the same outcomes
+			ex.Prune = pr && b >= 2
+			var plain map[string]int
+			if pr && b == 1 {
+				ex.Explore()
+				plain = map[string]int{}
+				for k := range outcomes {
+					plain[k] = 1
+				}
+				if ex.Violation == "" && !ex.Capped {
+					save := outcomes
+					outcomes = map[string]int{}
+					px := &sched.Explorer{Bound: 1, Prune: true, Stop: c.TimeUp, Exec: ex.Exec, MaxExec: ex.MaxExec}
+					px.Explore()
+					same := px.Violation == "" && len(outcomes) == len(plain)
+					for k := range outcomes {
+						if plain[k] == 0 {
+							same = false
+						}
+					}
+					mu.Lock()
+					c.Add(fmt.Sprintf("cli_scenario_%d_schedules_bound_1_with_pruning", i), int64(px.Executions))
+					if !same && !px.Capped {
+						pruneBroken = true
+						c.Set("cli_state_pruning", fmt.Sprintf("off: scenario %q at bound 1 gave different outcome sets with and without pruning (%d vs %d) - the state key misses something; plain bounded search", sc.Name, len(outcomes), len(plain)))
+					}
+					mu.Unlock()
+					for k, v := range save {
+						outcomes[k] += v
+					}
+					if !same {
+						pr = false
+					}
+				}
+			} else {
+				ex.Explore()
+			}
 			mu.Lock()
 			c.Add(fmt.Sprintf("cli_scenario_%d_schedules_bound_%d", i, b), int64(ex.Executions))
+			if ex.Prune {
+				c.Add(fmt.Sprintf("cli_scenario_%d_pruned_decisions_bound_%d", i, b), int64(ex.Pruned))
+			}
 			total += ex.Executions
 			mu.Unlock()
 			c.Transitions.Add(int64(ex.Executions))
@@ -404,6 +469,9 @@ func c14CLI(c *run.Check) {
 		c.Sample(map[string]interface{}{"cli_scenario": sc.Name, "args": sc.Args, "scheduling_points_per_execution": maxPoints, "distinct_stdout_orders": len(outcomes)})
 	})
 	c.Set("cli_executions", total)
+	if prune && !pruneBroken && c.Get("cli_state_pruning") == nil {
+		c.Set("cli_state_pruning", "on from preemption bound 2: a decision (state key, thread to run) is expanded once per budget level; state key = per-thread history of operations and observed values + channel contents + WaitGroup counters + mutex states + the sequence of writes so far; validated per scenario by comparing the outcome sets of the pruned and the plain exploration at bound 1")
+	}
 }
 
 // c14cliReplayRun re-executes a stored CLI schedule.
